@@ -154,7 +154,7 @@ JOBS = {
     ],
     "C09": [
         {"module": "MC_MsgDecode", "spec": "Spec", "invariants": MSG_INV,
-         "quick": {"constants": {"MaxLen": 5, "Wide": "FALSE"}, "timeout": 300},
+         "quick": {"constants": {"MaxLen": 6, "Wide": "FALSE"}, "timeout": 300},
          "thorough": {"constants": {"MaxLen": 7, "Wide": "TRUE"}, "timeout": 3000},
          "rule": "every array of arity 0..MaxLen over per-position slot palettes (each state = one array), decoded as all "
                  "eight structure types by value API and two wire encodings; non-trivial = non-empty array"},
